@@ -1340,20 +1340,54 @@ class Extractor:
             if sk in ("Semi", "Expr"):
                 e = H.strip(s["e"])
                 self._visit(fn, e, env2, cur_ctx, out, "stmt")
-                # early return: `if c { return .. }` guards the rest of the block with !c
-                if e.get("k") == "If" and not e.get("else") and _diverges(e["then"]):
-                    c = H.strip(e["cond"])
-                    if c.get("k") == "LetExpr":
-                        base = self.NF.nf(c["init"], env2)
-                        cond = ("islet", pat_label(c["pat"]), base)
-                    else:
-                        cond = self.NF.nf(c, env2)
-                    cur_ctx = cur_ctx + (("alt", cond, False),)
+                # early return: `if c { return .. }` (also nested: `if a { if b { return } }`) guards the rest of the block with !c
+                dc = diverge_condition(self.NF, e, env2)
+                if dc is not None:
+                    cur_ctx = cur_ctx + (("alt", dc, False),)
                 continue
             if sk == "Item":
                 continue
         if b.get("tail"):
             self._visit(fn, b["tail"], env2, cur_ctx, out, how)
+
+
+def diverge_condition(N, e, env, depth=0):
+    """The condition under which the statement `e` leaves the function / loop iteration (`return`, `continue`), when it has the
+    form `if c { return }`, `if let P = x { return }` or a nest of such ifs whose innermost block only diverges:
+    `if a { if b { return } }` leaves under `a && b`. None when the statement is not of that form."""
+    e = H.strip(e)
+    if e.get("k") != "If" or e.get("else") or depth > 3:
+        return None
+    c = H.strip(e["cond"])
+    env_t = env.child()
+    if c.get("k") == "LetExpr":
+        base = N.nf(c["init"], env)
+        bind_pattern(c["pat"], base, env_t)
+        cond = ("islet", pat_label(c["pat"]), base)
+    else:
+        cond = N.nf(c, env)
+    if _diverges(e["then"]):
+        return cond
+    # the then-block consists of (lets and) exactly one statement that itself diverges conditionally
+    t = H.strip(e["then"])
+    if t.get("k") != "Block":
+        return None
+    stmts = list(t["b"]["stmts"]) + ([{"k": "Expr", "e": t["b"]["tail"]}] if t["b"].get("tail") else [])
+    inner = None
+    for st in stmts:
+        if st.get("k") == "Let":
+            N.bind_let(st, env_t)
+            continue
+        if st.get("k") in ("Semi", "Expr"):
+            if inner is not None:
+                return None
+            inner = st["e"]
+    if inner is None:
+        return None
+    sub = diverge_condition(N, inner, env_t, depth + 1)
+    if sub is None:
+        return None
+    return ("binop", "And", cond, sub)
 
 
 def _diverges(e):
@@ -1530,13 +1564,9 @@ class EnvWalker:
             elif sk in ("Semi", "Expr"):
                 e = H.strip(s["e"])
                 self._w(e, env2, cb, cur)
-                if e.get("k") == "If" and not e.get("else") and _diverges(e["then"]):
-                    c = H.strip(e["cond"])
-                    if c.get("k") == "LetExpr":
-                        cond = ("islet", pat_label(c["pat"]), self.NF.nf(c["init"], env2))
-                    else:
-                        cond = self.NF.nf(c, env2)
-                    cur = cur + (("alt", cond, False),)
+                dc = diverge_condition(self.NF, e, env2)
+                if dc is not None:
+                    cur = cur + (("alt", dc, False),)
         if b.get("tail"):
             self._w(b["tail"], env2, cb, cur)
 
